@@ -17,7 +17,7 @@ def textsOut : List Node → List Out
 /-- nodes allowed in the body of a plain chain (`lvl0`: the most derived template, which has no `next`) -/
 def plainNode (lvl0 : Bool) : Node → Bool
   | .text _ => true
-  | .defn _ _ => true
+  | .defn _ _ _ => true
   | .block (some b) _ k => k.all isText && b != bodyName
   | .call .next x [] [] => x == bodyName && !lvl0
   | _ => false
@@ -44,7 +44,7 @@ def contentOf (c : List Level) (b : Name) : List Out :=
   match firstFrom c 0 b with
   | none => []
   | some l => match (c[l]?).bind (fun lv => lv.member b) with
-    | some (_, kids) => textsOut kids
+    | some (_, _, kids) => textsOut kids
     | none => []
 
 /-- output of the nodes of template `i`, `prev` being the output of the body of template `i-1`:
@@ -101,7 +101,7 @@ theorem exec_texts (c : List Level) (D : Dispatch) : ∀ f env (kids : List Node
       | call _ _ _ _ => simp [isText] at hk
       | attr _ _ => simp [isText] at hk
       | args => simp [isText] at hk
-      | defn _ _ => simp [isText] at hk
+      | defn _ _ _ => simp [isText] at hk
       | block _ _ _ => simp [isText] at hk
       | callTag _ => simp [isText] at hk
 
@@ -122,12 +122,13 @@ theorem plainLevels_get : ∀ (ls : List Level) (i k : Nat) (l : Level), plainLe
       rw [e] at this
       exact this
 
-theorem findTopDef_mem (x : Name) : ∀ (l : List Node) (k : List Node), findTopDef x l = some k → x ∈ topDefNames l
+theorem findTopDef_mem (x : Name) : ∀ (l : List Node) (k : List (Name × Option Val) × List Node),
+    findTopDef x l = some k → x ∈ topDefNames l
   | [], k, h => by simp [findTopDef] at h
   | n :: r, k, h => by
     have ih := findTopDef_mem x r
     cases n with
-    | defn nm kids =>
+    | defn nm ps kids =>
       simp only [findTopDef] at h
       cases hr : findTopDef x r with
       | some k' => simp [topDefNames, ih k' hr]
@@ -152,7 +153,7 @@ theorem findBlockL_texts_none (x : Name) : ∀ k : List Node, k.all isText = tru
     | call _ _ _ _ => simp [isText] at h
     | attr _ _ => simp [isText] at h
     | args => simp [isText] at h
-    | defn _ _ => simp [isText] at h
+    | defn _ _ _ => simp [isText] at h
     | block _ _ _ => simp [isText] at h
     | callTag _ => simp [isText] at h
 
@@ -167,7 +168,7 @@ theorem findBlockL_plain (x : Name) (lvl0 : Bool) : ∀ (l : List Node) (k : Lis
     | call _ _ _ _ => simp only [findBlockL, findBlockN] at h; exact ih h
     | attr _ _ => simp only [findBlockL, findBlockN] at h; exact ih h
     | args => simp only [findBlockL, findBlockN] at h; exact ih h
-    | defn _ _ => simp only [findBlockL, findBlockN] at h; exact ih h
+    | defn _ _ _ => simp only [findBlockL, findBlockN] at h; exact ih h
     | callTag _ => simp only [findBlockL, findBlockN] at h; exact ih h
     | block nm ln kids =>
       cases nm with
@@ -222,8 +223,8 @@ theorem bind_empty : bind [] true [] [] = some ([], []) := by decide
 theorem invoke_body (c : List Level) (run : Env → List Node → Res) (j : Nat) (lv : Level) (hj : c[j]? = some lv)
     (hs : lv.sig = []) :
     invoke c run (.member j j) bodyName [] [] = run { tmpl := j, ctx := j, bound := [], pageargs := some [] } lv.nodes := by
-  have hm : lv.member bodyName = some (MKind.body, lv.nodes) := by simp [Level.member]
-  simp only [invoke, hj, Option.bind_some, hm, Option.map_some, hs]
+  have hm : lv.member bodyName = some (MKind.body, [], lv.nodes) := by simp [Level.member, hs]
+  simp only [invoke, hj, Option.bind_some, hm]
   rfl
 
 theorem step_nextbody_rule (c : List Level) (i : Nat) (hi : i < c.length) (hi0 : i ≠ 0)
@@ -264,7 +265,7 @@ theorem exec_plain (c : List Level) (hp : PlainChain c) :
       | text k =>
         simp only [step, Except.ok.injEq] at hx
         subst hx; simp [expandNodes]
-      | defn _ _ =>
+      | defn _ _ _ =>
         simp only [step, Except.ok.injEq] at hx
         subst hx; simp [expandNodes]
       | attr _ _ => simp [plainNode] at hplain
@@ -304,13 +305,12 @@ theorem exec_plain (c : List Level) (hp : PlainChain c) :
               cases hfb : findBlockL b c[l].nodes with
               | none => simp [hfb] at hdecl
               | some kids' =>
-                have hmem : c[l].member b = some (MKind.block, kids') := by
+                have hmem : c[l].member b = some (MKind.block, [], kids') := by
                   simp [Level.member, hb1.2, hnt, hfb]
                 have htx := findBlockL_plain b _ _ _ hplv.1 hfb
-                simp only [invoke, hcl, Option.bind_some, hmem, Option.map_some] at hx
+                simp only [invoke, hcl, Option.bind_some, hmem] at hx
                 have hbind : bind [] true [] [] = some ([], []) := bind_empty
-                simp only [show (if MKind.block = MKind.body then c[l].sig else []) = [] from rfl,
-                  show (MKind.block != MKind.defn) = true from rfl, hbind] at hx
+                simp only [show (MKind.block != MKind.defn) = true from rfl, hbind] at hx
                 have := exec_texts c _ f _ kids' x htx hx
                 rw [this]
                 simp [contentOf, hf, hcl, hmem]
